@@ -175,7 +175,9 @@ class AXIMaster:
     reads : list of dict(id, addr, len, size, burst, gap, after_b=index of the write whose B must have been seen or None)
     Records handshake cycles: aw_t, w_t (per beat), b (cycle, id), ar_t, r beats (cycle, id, data, last)."""
 
-    def __init__(self, axi, writes, reads, rng, ready_b=0.7, ready_r=0.7, long_stall=0.0):
+    def __init__(self, axi, writes, reads, rng, ready_b=0.7, ready_r=0.7, long_stall=0.0, serial_writes=False):
+        # serial_writes: one write burst at a time (AW and W of burst k only after the B of burst k-1, W only after its AW)
+        self.serial_writes = serial_writes
         self.axi = axi
         self.writes = writes
         self.reads = reads
@@ -245,15 +247,19 @@ class AXIMaster:
 
     def _aw(self):
         f = lambda w: dict(addr=w["addr"], len=w["len"], size=w["size"], burst=w["burst"], id=w["id"])
-        return self._chan(self.axi.aw, self.writes, f, lambda w: w["gap_aw"], self.aw_t, "done_aw", "aw")
+        for i, w in enumerate(self.writes):
+            w["_idx"] = i
+        gate = (lambda w: self.b_seen >= w["_idx"]) if self.serial_writes else None
+        return self._chan(self.axi.aw, self.writes, f, lambda w: w["gap_aw"], self.aw_t, "done_aw", "aw", gate)
 
     def _w(self):
         beats = []
         for wi, w in enumerate(self.writes):
             for bi, (d, s) in enumerate(w["beats"]):
-                beats.append(dict(data=d, strb=s, last=int(bi == len(w["beats"]) - 1), gap=w["gaps_w"][bi]))
+                beats.append(dict(data=d, strb=s, last=int(bi == len(w["beats"]) - 1), gap=w["gaps_w"][bi], wi=wi))
         f = lambda b: dict(data=b["data"], strb=b["strb"], last=b["last"])
-        return self._chan(self.axi.w, beats, f, lambda b: b["gap"], self.w_t, "done_w", "w", offers=self.w_offer)
+        gate = (lambda b: self.b_seen >= b["wi"] and len(self.aw_t) > b["wi"]) if self.serial_writes else None
+        return self._chan(self.axi.w, beats, f, lambda b: b["gap"], self.w_t, "done_w", "w", gate, offers=self.w_offer)
 
     def _ar(self):
         f = lambda r: dict(addr=r["addr"], len=r["len"], size=r["size"], burst=r["burst"], id=r["id"])
